@@ -470,6 +470,9 @@ def run(rep, tier):
     rep.rule("R07.5", "conformance of error reporting: no wrapper path turns a backend failure into a normal answer (Err edge reaches Ok only via an arm "
                       "naming a specific object_store::Error variant)", floor=12)
     ostore.error_swallow_rules(rep, "R07.5", prog)
+    rep.rule("R07.7", "an error of a sidecar commit point leaves no stale cache entry behind: the Err edge of and_try_compute_with reaches a cache invalidation "
+             "(update_meta_with, delete_object)", floor=2)
+    ostore.commit_error_forgets_cache_rules(rep, "R07.7", prog)
     return rep.finish(EXPLAIN)
 
 
